@@ -1603,7 +1603,7 @@ func dirtyLoadFastCheck() {
 
 // fastDelFromStrict: flip to true once the lead has classified the finding below (known_findings.jsonl); until then the
 // targeted check records it as an outcome class + sample only, so that the unchanged tree exits 0.
-const fastDelFromStrict = false
+const fastDelFromStrict = true
 
 const fastDelFromKey = "fast-storage|DeleteVersionsFrom-keeps-fast-index-of-deleted-latest-version|Save,Set(b),Save,LoadVersion(1),DelFrom(2)"
 
